@@ -103,7 +103,12 @@ func newVectorAccumulator(expr parser.ItemType) (vectorAccumulator, error) {
 		}, nil
 	case "avg":
 		return func(in []float64) float64 {
-			return floats.Sum(in) / float64(len(in))
+			var mean, count float64
+			for _, v := range in {
+				count++
+				mean = addToMean(mean, count, v)
+			}
+			return mean
 		}, nil
 	case "group":
 		return func(in []float64) float64 {
@@ -112,4 +117,27 @@ func newVectorAccumulator(expr parser.ItemType) (vectorAccumulator, error) {
 	}
 	msg := fmt.Sprintf("unknown aggregation function %s", t)
 	return nil, errors.Wrap(parse.ErrNotSupportedExpr, msg)
+}
+
+// addToMean returns the mean of count values, given the mean of the first
+// count-1 of them and the last value. Like the Prometheus engine, it keeps a
+// running mean rather than a sum, which would overflow for values whose mean is
+// still representable.
+func addToMean(mean, count, v float64) float64 {
+	if count == 1 {
+		return v
+	}
+	if math.IsInf(mean, 0) {
+		if math.IsInf(v, 0) && (mean > 0) == (v > 0) {
+			// mean and v are infinities of the same sign: they cannot be
+			// subtracted, and the mean is correct already.
+			return mean
+		}
+		if !math.IsInf(v, 0) && !math.IsNaN(v) {
+			// An infinite mean stays what it is when a finite value is added;
+			// the update below would turn it into NaN.
+			return mean
+		}
+	}
+	return mean + (v/count - mean/count)
 }
